@@ -294,10 +294,15 @@ class PlayerStateManager:
         player = self.get_player(player_to_remove)
         if player.is_valid:
             client = self.get_client(player_to_remove.client)
+
+            # Must be checked before removing the player as the default player is
+            # implicitly active for as long as it exists
+            was_active = player == client.active_player
+
             del client.players[player.identifier]
             player.parent = None
 
-            if player == client.active_player:
+            if was_active:
                 client.active_player = None
                 await self._state_updated(client=client)
 
